@@ -254,10 +254,15 @@ class Context:
 
         def proto_isPrototypeOf(this_val, *args):
             obj = args[0] if args else UNDEFINED
-            if not isinstance(obj, JSObject):
+            if isinstance(obj, JSFunction):
+                # script functions are linked to Function.prototype implicitly
+                fn_ctor = self._globals.get("Function")
+                proto = fn_ctor.get("prototype") if isinstance(fn_ctor, JSObject) else None
+            elif not isinstance(obj, JSObject):
                 return False
-            proto = getattr(obj, "_prototype", None)
-            while proto is not None:
+            else:
+                proto = getattr(obj, "_prototype", None)
+            while isinstance(proto, JSObject):
                 if proto is this_val:
                     return True
                 proto = getattr(proto, "_prototype", None)
